@@ -213,7 +213,10 @@ def setup_all():
 def base_env():
     env = dict(os.environ)
     env["LC_ALL"] = "C"
-    env["ASAN_OPTIONS"] = "exitcode=99:detect_leaks=0:quarantine_size_mb=16:abort_on_error=0:allocator_may_return_null=1:handle_abort=1"
+    # malloc_context_size: librapidcheck has no frame pointers, so ASan's fast unwinder records garbage frames
+    # below the engine and every allocation stack is unique - the stack depot then grows without bound (1.3 GB
+    # after 20k cases, 3x slower). Ten frames keep the library and harness part of every stack.
+    env["ASAN_OPTIONS"] = "exitcode=99:detect_leaks=0:quarantine_size_mb=16:abort_on_error=0:allocator_may_return_null=1:handle_abort=1:malloc_context_size=10"
     env["UBSAN_OPTIONS"] = "halt_on_error=1:exitcode=99:print_stacktrace=1"
     env["TSAN_OPTIONS"] = "exitcode=66:halt_on_error=0:second_deadlock_stack=1"
     env.pop("RC_PARAMS", None)
@@ -325,6 +328,8 @@ def replay_once(binary, case, env, isolate=False, timeout=900, extra_args=()):
     try:
         cmd = [binary, "--out", d, "--known", KNOWN] + (["--isolate"] if isolate else []) + list(extra_args) + \
               ["--replay", case]
+        if "ASAN_OPTIONS" in env:  # a single case: full allocation stacks in the report
+            env = dict(env, ASAN_OPTIONS=env["ASAN_OPTIONS"].replace("malloc_context_size=10", "malloc_context_size=30"))
         r = subprocess.run(cmd, env=env, stdout=subprocess.PIPE, stderr=subprocess.STDOUT, cwd=d, timeout=timeout)
         return r.returncode, r.stdout.decode(errors="replace")
     except subprocess.TimeoutExpired:
@@ -530,7 +535,7 @@ def run_check(pid, tier, seed):
                         shutil.copy(f, cdir)
                 e = dict(env, VF_STATS_DIR=od, VF_KNOWN=KNOWN)
                 leaks = "0" if fz.get("generic") else "1"   # leaks are C04's and C20's subject
-                e["ASAN_OPTIONS"] = "detect_leaks=%s:quarantine_size_mb=16:allocator_may_return_null=1:handle_abort=1" % leaks
+                e["ASAN_OPTIONS"] = "detect_leaks=%s:quarantine_size_mb=16:allocator_may_return_null=1:handle_abort=1:malloc_context_size=10" % leaks
                 e["UBSAN_OPTIONS"] = "halt_on_error=1:print_stacktrace=1"
                 cmd = [fbin, cdir, "-seed=%d" % (seed * 100 + j + 1), "-runs=%d" % cfg["fuzz_runs"], "-max_len=%d" % fz["max_len"],
                        "-artifact_prefix=" + od + "/", "-print_final_stats=1", "-timeout=25", "-rss_limit_mb=4000",
